@@ -431,3 +431,105 @@ Proof.
 Qed.
 
 End Erase.
+
+(* ---------- (1) transparency ---------- *)
+Theorem detail_transparent cfg E fuel p s :
+  map_res erase_detail (exec cfg E fuel p s) = map_res erase_detail (exec cfg E fuel p (set_pa_enabled s false)).
+Proof.
+  rewrite (proj1 (exec_erase cfg E fuel p s)), (proj1 (exec_erase cfg E fuel p (set_pa_enabled s false))). reflexivity.
+Qed.
+
+Lemma outcome_of_erase cfg r : outcome_of cfg (map_res erase_detail r) = outcome_of cfg r.
+Proof. destruct r; reflexivity. Qed.
+
+Theorem parse_with_detail_irrelevant cfg E fuel p inp lim :
+  parse_with cfg E fuel p inp lim true = parse_with cfg E fuel p inp lim false.
+Proof.
+  unfold parse_with, run_state.
+  rewrite <- (outcome_of_erase cfg (exec cfg E fuel p (init inp lim true))).
+  rewrite (proj1 (exec_erase cfg E fuel p (init inp lim true))). reflexivity.
+Qed.
+
+(* the same kind of result in both modes: in particular the same panics (none added by the bookkeeping) *)
+Theorem detail_same_result_kind cfg E fuel p s :
+  match exec cfg E fuel p s, exec cfg E fuel p (set_pa_enabled s false) with
+  | ROk a, ROk b | RErr a, RErr b => erase_detail a = erase_detail b
+  | RPanic k, RPanic k' => k = k'
+  | ROutOfFuel, ROutOfFuel => True
+  | _, _ => False
+  end.
+Proof.
+  pose proof (detail_transparent cfg E fuel p s) as H.
+  destruct (exec cfg E fuel p s), (exec cfg E fuel p (set_pa_enabled s false)); cbn in H; try discriminate; try congruence; auto.
+Qed.
+
+Theorem detail_no_internal_panic cfg E fuel p s a :
+  wf s -> Inv (stack s) a -> exec cfg E fuel p s <> RPanic PkInternal.
+Proof. intros W I H. pose proof (exec_post cfg E fuel p s a W I) as P. rewrite H in P. cbn in P. congruence. Qed.
+
+(* the final state of a detail-off run carries no attempt information (nothing is recorded) *)
+Lemma detail_off_untouched cfg E fuel p s : pa_enabled s = false ->
+  res_all (fun s' => pa_enabled s' = false) (exec cfg E fuel p s).
+Proof.
+  intros H. pose proof (proj2 (exec_erase cfg E fuel p s)) as D.
+  destruct (exec cfg E fuel p s); cbn in *; auto; destruct D as (D1 & _); congruence.
+Qed.
+
+(* ---------- (2) max_position ---------- *)
+Lemma push_token_mp s t neg : max_position (push_token s t neg) = max_position s /\ pos (push_token s t neg) = pos s.
+Proof. unfold push_token. destruct neg; split; reflexivity. Qed.
+
+Lemma try_add_new_token_mp s t sp p neg :
+  max_position (try_add_new_token s t sp p neg) = max_position s \/ max_position (try_add_new_token s t sp p neg) = p.
+Proof.
+  unfold try_add_new_token. destruct (Nat.ltb (max_position s) p).
+  - destruct (neg && Nat.ltb (max_position s) sp); [left; reflexivity|].
+    destruct neg; [left; apply push_token_mp|right; reflexivity].
+  - destruct (Nat.eqb p (max_position s)); [left; cbn; apply push_token_mp|left; reflexivity].
+Qed.
+
+Lemma handle_token_mp x sp tk b :
+  max_position (handle_token_parse_result x sp tk b) = max_position x \/
+  max_position (handle_token_parse_result x sp tk b) = pos x.
+Proof.
+  unfold handle_token_parse_result. destruct b.
+  - destruct (lk_eqb (lookahead x) LNeg); [apply try_add_new_token_mp|].
+    destruct (Nat.ltb (max_position x) (pos x)); [right; reflexivity|left; reflexivity].
+  - destruct (negb (lk_eqb (lookahead x) LNeg)); [apply try_add_new_token_mp|left; reflexivity].
+Qed.
+
+Definition mp_step (s : pst) (r : res) : Prop :=
+  res_all (fun s' => max_position s' = max_position s \/ max_position s' = pos s') r.
+
+Lemma apply_pres_mp s r t : mp_step s (apply_pres s r t).
+Proof.
+  unfold apply_pres, mp_step. destruct r as [p| |]; cbn [res_all]; [| |exact I].
+  - destruct t as [tk|]; [destruct (pa_enabled s)|]; try (left; reflexivity).
+    destruct (handle_token_core (set_pos s p) (pos s) tk true) as [C _]. rewrite (c_pos _ _ C).
+    apply (handle_token_mp (set_pos s p) (pos s) tk true).
+  - destruct t as [tk|]; [destruct (pa_enabled s)|]; try (left; reflexivity).
+    destruct (handle_token_core s (pos s) tk false) as [C _]. rewrite (c_pos _ _ C).
+    apply (handle_token_mp s (pos s) tk false).
+Qed.
+
+Lemma exec_prim_mp cfg o s : mp_step s (exec_prim cfg o s).
+Proof.
+  destruct o; cbn [exec_prim]; unfold st_match_string; try apply apply_pres_mp; unfold mp_step.
+  - left; reflexivity.
+  - left; reflexivity.
+  - destruct (skip_until cfg (input s) (pos s) ss); cbn; auto.
+  - destruct (Nat.eqb (pos s) 0); left; reflexivity.
+  - destruct (Nat.eqb (pos s) (length (input s))); left; reflexivity.
+  - left; reflexivity.
+  - destruct (peek (stack s)); [apply apply_pres_mp|exact I].
+  - destruct (pop (stack s)) as [st' [str|]]; [|exact I].
+    apply (apply_pres_mp (set_stack s st')).
+  - destruct (pop (stack s)) as [st' [str|]]; left; reflexivity.
+  - unfold peek_slice. destruct (constrain_idxs _ _ _) as [[a b]|]; [|left; reflexivity].
+    destruct (Nat.leb b a); [left; reflexivity|]. destruct (match_all _ _ _); left; reflexivity.
+  - destruct (match_pop_loop _ _ _ _) as [[[st' p] [|]]|]; cbn; auto.
+  - unfold peek_slice. destruct (constrain_idxs _ _ _) as [[a b]|]; [|left; reflexivity].
+    destruct (Nat.leb b a); [left; reflexivity|]. destruct (match_all _ _ _); left; reflexivity.
+  - destruct (negb (lk_eqb (lookahead s) LNone)); [left; reflexivity|].
+    destruct (queue s) as [|[e p|si r tg p] q]; left; reflexivity.
+Qed.
